@@ -48,6 +48,10 @@ pub struct History {
     /// scans, which commit the transaction, run after a reopen and at the end - so consecutive offers share a transaction
     #[serde(default)]
     pub sparse_observe: bool,
+    /// the local steps of the history (insert / prefix delete; everything else is skipped) go through the client API of a
+    /// real engine: `Doc::set_hash`, `Doc::del` (which reports the number of entries it removed), `Doc::get_many`
+    #[serde(default)]
+    pub via_api: bool,
 }
 
 #[derive(Serialize, Deserialize, Clone, Debug)]
@@ -95,7 +99,7 @@ impl Prop for C02 {
     fn strategy(tier: Tier) -> BoxedStrategy<Case> {
         let max_steps = tier.pick(20, 60);
         let hist = (prop::bool::weighted(0.25), pools(8), vec(step(), 1..=max_steps), prop::bool::weighted(0.4))
-            .prop_map(|(file, pools, steps, sparse_observe)| Case::History(History { file, pools, steps, sparse_observe }));
+            .prop_map(|(file, pools, steps, sparse_observe)| Case::History(History { file, pools, steps, sparse_observe, via_api: false }));
         let perm = (pools(6), vec(egen(), 1..=8))
             .prop_flat_map(|(pools, entries)| {
                 let n = entries.len();
@@ -110,9 +114,14 @@ impl Prop for C02 {
                 steps.insert(at, Step::Crowd { a, k, class, t });
                 // make sure something is offered at the crowd's own key afterwards (an insert or a deletion, any timestamp)
                 steps.push(Step::Delete { a, k, now: 7 - (t % 4) });
-                Case::History(History { file, pools, steps, sparse_observe })
+                Case::History(History { file, pools, steps, sparse_observe, via_api: false })
             });
-        prop_oneof![200 => hist, 100 => perm, 1 => crowd].boxed()
+        let local_step = prop_oneof![
+            3 => (any::<u16>(), any::<u16>(), 1u8..4, 0u8..8).prop_map(|(a, k, c, now)| Step::Insert { a, k, c, now }),
+            2 => (any::<u16>(), any::<u16>(), 0u8..8).prop_map(|(a, k, now)| Step::Delete { a, k, now }),
+        ];
+        let api = (pools(8), vec(local_step, 1..=16)).prop_map(|(pools, steps)| Case::History(History { file: false, pools, steps, sparse_observe: false, via_api: true }));
+        prop_oneof![200 => hist, 100 => perm, 1 => crowd, 2 => api].boxed()
     }
 
     fn check(ctx: &mut Ctx, case: &Case) -> Outcome {
@@ -146,7 +155,81 @@ fn ff_edge(model: &Model, e: &SignedEntry) -> bool {
         .any(|(ca, ck)| *ca == a && !ck.starts_with(k) && ck.as_slice() > k && ck.as_slice() < succ.as_slice())
 }
 
+/// The local write paths through the client API of a real engine, against the same model.
+fn check_history_api(ctx: &mut Ctx, h: &History) -> Outcome {
+    use crate::props::c07::{api_fixture, within};
+    use futures_util::StreamExt;
+    let mut o = Outcome::default();
+    o.class("history/through-the-client-api-of-a-real-engine");
+    let r: R<()> = (|| {
+        let keys = h.pools.keys();
+        let authors = h.pools.authors();
+        let nssec = namespace(h.pools.ns).clone();
+        let (endpoint, gossip, blobs) = api_fixture(ctx)?;
+        ctx.rt.block_on(async {
+            let docs = within("spawning the engine", iroh_docs::protocol::Docs::memory().spawn(endpoint, blobs, gossip)).await?.map_err(|e| format!("spawn: {e:?}"))?;
+            for a in &authors {
+                es(within("author_import", docs.author_import(author(*a).clone())).await?)?;
+            }
+            let doc = es(within("import", docs.import_namespace(nssec.clone().into())).await?)?;
+            let mut model = Model::default();
+            for (i, s) in h.steps.iter().enumerate() {
+                let (entry, delete) = match s {
+                    Step::Insert { a, k, c, now } => (sign(&nssec, &ESpec { a: authors[idx(*a, authors.len())], k: keys[idx(*k, keys.len())].clone(), t: T0 + *now as u64, c: *c }), false),
+                    Step::Delete { a, k, now } => (sign(&nssec, &ESpec { a: authors[idx(*a, authors.len())], k: keys[idx(*k, keys.len())].clone(), t: T0 + *now as u64, c: 0 }), true),
+                    _ => continue,
+                };
+                let before = model.clone();
+                let expect = model.apply(&entry);
+                if expect.is_none() {
+                    o.class("superseded-offer");
+                    o.nontrivial = true;
+                }
+                verif::set_clock(Some(entry.timestamp()));
+                let got: Option<usize> = if delete {
+                    within("del", doc.del(entry.author(), entry.key().to_vec())).await?.ok()
+                } else {
+                    // set_hash does not report a count: Some(_) stands for "accepted"
+                    within("set_hash", doc.set_hash(entry.author(), entry.key().to_vec(), entry.content_hash(), entry.content_len())).await?.ok().map(|_| expect.unwrap_or(0))
+                };
+                verif::set_clock(Some(T0 + 3));
+                if got != expect {
+                    o.fail(
+                        "C02/step-result",
+                        format!("through the client API, step {i} offering {} to state {}: the call returned {:?} (Some(n) = accepted, n removed; None = refused), model {:?}", describe(&entry), describe_all(&before.dump()), got, expect),
+                    );
+                    break;
+                }
+                o.count("steps_compared_with_model", 1);
+            }
+            if !o.failed() {
+                let stream = es(within("get_many", doc.get_many(iroh_docs::store::Query::all().include_empty())).await?)?;
+                tokio::pin!(stream);
+                let mut got = vec![];
+                while let Some(x) = within("reply item", stream.next()).await? {
+                    got.push(es(x)?);
+                }
+                let want: Vec<iroh_docs::Entry> = model.dump().iter().map(|e| e.entry().clone()).collect();
+                if got != want {
+                    o.fail("C02/state", format!("through the client API: the document holds {} entries {:?}, the model {}", got.len(), got.iter().map(|e| (hex::encode(e.key()), e.timestamp())).collect::<Vec<_>>(), describe_all(&model.dump())));
+                }
+            }
+            drop(doc);
+            within("shutdown", iroh::protocol::ProtocolHandler::shutdown(&docs)).await?;
+            Ok::<(), String>(())
+        })
+    })();
+    verif::set_clock(None);
+    if let Err(e) = r {
+        o.fail(if e.starts_with("harness-timeout") { "C02/harness-timeout" } else { "C02/harness-error" }, e);
+    }
+    o
+}
+
 fn check_history(ctx: &mut Ctx, h: &History) -> Outcome {
+    if h.via_api {
+        return check_history_api(ctx, h);
+    }
     let mut o = Outcome::default();
     o.class(if h.file { "history/file" } else { "history/memory" });
     if h.sparse_observe {
